@@ -233,7 +233,7 @@ class ShelxlRefine():
         os.chdir(current_path)
         if p.returncode != 0:
             status = False
-        if os.stat(resfile).st_size < 10:
+        if not os.path.isfile(resfile) or os.stat(resfile).st_size < 10:
             # status is False if shelx was unsecessful
             status = False
         if not status:
